@@ -152,7 +152,11 @@ def _children_comp(ps, e, attr, at, allow_filter=True):
         for d in defs:
             if d.kind == 'assign' and d.value is not None:
                 conds = facts.node_conditions(ps.ctx.prog, ps.f, d.stmt, ps.ctx.typer, expand=False)
-                empty_guard = any((match(f"len({e.id}) == 0", t) and p) or (match(f"not {e.id}", t) and p) for t, p in conds)
+                empty_guard = False
+                for t, p in conds:
+                    em = sched.is_emptiness(t, p)
+                    if em and em[1] and isinstance(em[0], ast.Name) and em[0].id == e.id:
+                        empty_guard = True
                 if empty_guard:
                     continue        # fallback for an empty list
                 verdicts.append(_children_comp(ps, d.value, attr, d.node, allow_filter))
@@ -256,10 +260,15 @@ def wbs_bounds(ctx, o):
         ex = Expander(prog, f, ctx.typer)
         rets = [n for n in walk_no_nested(f.node) if isinstance(n, ast.Return)]
         good = False
+        cases = []
         for r in rets:
-            if isinstance(r.value, ast.Constant) and r.value.value is None:
+            if r.value is None or (isinstance(r.value, ast.Constant) and r.value.value is None):
                 continue
-            v = ex.expand(r.value)
+            for conds, cv in sched.expr_cases(ex.expand(r.value)):
+                if isinstance(cv, ast.Constant) and cv.value is None:
+                    continue          # the None answer for an empty WBS
+                cases.append((r, cv))
+        for r, v in cases:
             if not (isinstance(v, ast.Call) and isinstance(v.func, ast.Name) and v.func.id == op and len(v.args) == 1):
                 o.refute(f, r, r, f"WBS.{attr} returns `{src(v)[:80]}`; expected {op}(root {attr}s)")
                 good = None
